@@ -233,7 +233,7 @@ def catalogue(rng, W, tier):
         def run():
             o = s.cmd("RUN")
             for l in o:
-                if l.startswith("E madd"):
+                if l.startswith("E madd "):
                     live.append((int(re.search(r"x=(\d+)", l).group(1)), bytes.fromhex(l.split("post=")[1].split()[0])))
             return o
         if " rc=0x0 " in out[-1] + " ":
